@@ -388,3 +388,98 @@ pub fn soft_deadline(tier: Tier) -> Duration {
         });
     Duration::from_secs(secs)
 }
+
+/// Splits violations (own property / others / known findings), writes replays and evidence, prints the verdict.
+pub fn conclude(ctx: &Ctx, mut rep: Report, replay: Option<&std::path::Path>) -> i32 {
+    // Split violations: own property / other properties (NOTE only) ; match known findings.
+    let prop = ctx.prop.clone();
+    let seed = ctx.seed;
+    let tier = ctx.tier;
+    let start = ctx.start;
+    let verif_dir = ctx.verif_dir.clone();
+    let known = load_known(&verif_dir);
+    let mut own: Vec<Violation> = vec![];
+    let mut known_hits: Vec<String> = vec![];
+    let all = std::mem::take(&mut rep.violations);
+    for v in all {
+        if v.prop != prop {
+            println!("NOTE: discrepancy tagged {} seen while checking {} ({}): {}", v.prop, prop, v.signature, v.summary);
+            continue;
+        }
+        if let Some(k) = known.iter().find(|k| k.prop == v.prop && k.signature == v.signature) {
+            let line = format!("KNOWN-FINDING: property={} {} [{}]", v.prop, k.text, k.signature);
+            if !known_hits.contains(&line) {
+                known_hits.push(line);
+            }
+        } else {
+            own.push(v);
+        }
+    }
+    for l in &known_hits {
+        println!("{}", l);
+    }
+
+    let mut exit = 0;
+    if !own.is_empty() && replay.is_none() {
+        let dir = verif_dir.join("replays");
+        let _ = std::fs::create_dir_all(&dir);
+        for (i, v) in own.iter().enumerate() {
+            let path = dir.join(format!("{}-{}-{}.json", prop, seed, i));
+            let doc = json!({
+                "property": v.prop,
+                "signature": v.signature,
+                "summary": v.summary,
+                "seed": seed,
+                "tier": tier.name(),
+                "witness": v.witness,
+            });
+            let _ = std::fs::write(&path, serde_json::to_string_pretty(&doc).unwrap());
+            println!("VIOLATION property={} replay={}", prop, path.display());
+            println!("  signature: {}", v.signature);
+            println!("  {}", v.summary);
+        }
+        exit = 1;
+    } else if !own.is_empty() {
+        for v in &own {
+            println!("VIOLATION property={} replay={}", prop, replay.unwrap().display());
+            println!("  signature: {}", v.signature);
+            println!("  {}", v.summary);
+        }
+        exit = 1;
+    }
+
+    if replay.is_none() {
+        let ev = evidence_json(ctx, &rep, own.len(), &known_hits);
+        let dir = verif_dir.join("evidence");
+        let _ = std::fs::create_dir_all(&dir);
+        let path = dir.join(format!("{}.json", prop));
+        std::fs::write(&path, serde_json::to_string_pretty(&ev).unwrap()).expect("write evidence");
+    }
+
+    if exit == 0 && !rep.inconclusive.is_empty() {
+        for m in &rep.inconclusive {
+            println!("INCONCLUSIVE property={} {}", prop, m);
+        }
+        exit = 2;
+    }
+    println!(
+        "{} {} {} seed={} evaluations={} distinct_nontrivial={} wall={:.1}s",
+        match exit {
+            0 => "HELD",
+            1 => "VIOLATED",
+            _ => "INCONCLUSIVE",
+        },
+        prop,
+        tier.name(),
+        seed,
+        rep.evaluations,
+        rep.fingerprints.len(),
+        start.elapsed().as_secs_f64()
+    );
+    let mut keys: Vec<_> = rep.counters.iter().filter(|(k, _)| !k.starts_with("violations_raw/")).collect();
+    keys.sort();
+    for (k, v) in keys.iter().take(60) {
+        println!("  observed {:<60} {}", k, v);
+    }
+    exit
+}
